@@ -77,6 +77,8 @@ func c16One(res *vlib.Result, si, enc, integ, ci, vc, life, ver, dir, tag int) {
 		tg = "claimtag"
 	}
 	opts.Tag = tg
+	const importerAddr = "<10.9.9.9:7777>"
+	opts.PeerAddr = importerAddr // the minter will also dial the importer BY COMMAND
 	mc, err := security.MintClaimSession(M, opts)
 	if err != nil {
 		res.Violate("C16/mint-error", "%s: %v", id, err)
@@ -173,6 +175,30 @@ func c16One(res *vlib.Result, si, enc, integ, ci, vc, life, ver, dir, tag int) {
 		run(I, M, "importer-dials", true)
 	} else {
 		run(M, I, "minter-dials", true)
+	}
+	// the same connection opened BY COMMAND (no session id given): the dialer's cache
+	// must route (tag, peer address, command) to the claim session
+	if vc >= 1 {
+		cliCache, srvCache, peer, label := I, M, c16Sinfuls[si], "importer-dials-by-command"
+		if dir == 1 {
+			cliCache, srvCache, peer, label = M, I, importerAddr, "minter-dials-by-command"
+		}
+		cc := baseCfg(security.SecurityOptional, security.SecurityOptional, nil, []security.CryptoMethod{security.CryptoAES}, false)
+		cc.SessionCache, cc.Command, cc.SecurityTag, cc.PeerName = cliCache, 443, tg, peer
+		sc := baseCfg(security.SecurityOptional, security.SecurityOptional, nil, []security.CryptoMethod{security.CryptoAES}, true)
+		sc.SessionCache = srvCache
+		r := hsRun(hsOpts{ClientCfg: cc, ServerCfg: sc, App: true})
+		res.Transitions++
+		if r.S.Neg != nil && r.S.Neg.SessionId != sid {
+			security.GetSessionCache().Invalidate(r.S.Neg.SessionId)
+		}
+		if r.C.Err != nil || r.S.Err != nil || !r.C.Resumed || !r.S.Resumed || r.C.Neg.SessionId != sid {
+			gotSid := ""
+			if r.C.Neg != nil {
+				gotSid = r.C.Neg.SessionId
+			}
+			res.Violate("C16/by-command-not-resumed/"+label, "%s: a connection for a valid command of the claim did not resume the claim session (client %s server %s resumed %v/%v session %q)", id, errStr(r.C.Err), errStr(r.S.Err), r.C.Resumed, r.S.Resumed, gotSid)
+		}
 	}
 	res.Outcome("ok")
 }
@@ -304,7 +330,7 @@ func c16History(res *vlib.Result, hist []string) {
 func C16Plan() *vlib.Plan {
 	p := &vlib.Plan{
 		Property: "C16", Level: "exploration",
-		Rule:   "E-ENUM full product: sinful in {plain, with params, with sock=, with embedded '#', bracketed IPv6} x Encryption/Integrity in {unset, true, false}^2 x cipher list in {'', AES, AESGCM, 'AES,BLOWFISH', 'AES,3DES,BLOWFISH'} x ValidCommands in {none, [443], [443,444]} x lifetime in {0, 60 s, 20 years, 100 years (expiry beyond 2^31-1 s)} x version in {'', long, short} x direction (importer dials / minter dials) x tag; each pair: cache entries compared (id, key, Encryption/Integrity/cipher/commands, expiry), public form searched for the secret, policy text render/parse fixed point, then a real resumption handshake (no negotiation on the wire) with ping/pong both ways. Plus every single-character alteration of the secret in both directions, and every history of <= 3 (thorough 4) imports into ONE importer cache over {intact id, id with the first / last secret character altered, intact id of a second claim}: whenever the last import of the claim is the intact id, key and expiry must equal the minter's and resumption must work both ways. Non-trivial = mint succeeded; ids distinct by construction.",
+		Rule:   "E-ENUM full product: sinful in {plain, with params, with sock=, with embedded '#', bracketed IPv6} x Encryption/Integrity in {unset, true, false}^2 x cipher list in {'', AES, AESGCM, 'AES,BLOWFISH', 'AES,3DES,BLOWFISH'} x ValidCommands in {none, [443], [443,444]} x lifetime in {0, 60 s, 20 years, 100 years (expiry beyond 2^31-1 s)} x version in {'', long, short} x direction (importer dials / minter dials) x tag; each pair: cache entries compared (id, key, Encryption/Integrity/cipher/commands, expiry), public form searched for the secret, policy text render/parse fixed point, then a real resumption handshake (no negotiation on the wire) with ping/pong both ways, by session id and - when the claim lists commands - by command (the dialer's cache must route tag, peer address and command to the claim session). Plus every single-character alteration of the secret in both directions, and every history of <= 3 (thorough 4) imports into ONE importer cache over {intact id, id with the first / last secret character altered, intact id of a second claim}: whenever the last import of the claim is the intact id, key and expiry must equal the minter's and resumption must work both ways. Non-trivial = mint succeeded; ids distinct by construction.",
 		Assume: []string{"peer caches are private per case (no process-global state involved)"},
 	}
 	p.Gen = func(tier string, yield func(vlib.Case)) {
